@@ -11,7 +11,21 @@ use tokio::io::{AsyncReadExt, AsyncWriteExt};
 use tokio::net::{TcpStream, UnixStream};
 use zeromq::*;
 
-const POS_DEADLINE: Duration = Duration::from_millis(5000);
+const POS_DEADLINE_FULL: Duration = Duration::from_millis(5000);
+const POS_DEADLINE_SHORT: Duration = Duration::from_millis(1500);
+/// positive waits that ran into their deadline so far (this process): on a healthy tree none does; once several
+/// have, the tree is broken and later positive waits get the short deadline so that the run ends in minutes
+static EXPIRED: std::sync::atomic::AtomicUsize = std::sync::atomic::AtomicUsize::new(0);
+fn pos_deadline() -> Duration {
+    if EXPIRED.load(std::sync::atomic::Ordering::Relaxed) >= 3 {
+        POS_DEADLINE_SHORT
+    } else {
+        POS_DEADLINE_FULL
+    }
+}
+fn note_expired() {
+    EXPIRED.fetch_add(1, std::sync::atomic::Ordering::Relaxed);
+}
 const NEG_DEADLINE: Duration = Duration::from_millis(400);
 
 enum Raw {
@@ -188,8 +202,12 @@ impl Net {
         match ep {
             Endpoint::Tcp(h, p) => {
                 let host = h.to_string();
-                match tokio::time::timeout(POS_DEADLINE, TcpStream::connect((host.as_str(), *p))).await {
+                match tokio::time::timeout(pos_deadline(), TcpStream::connect((host.as_str(), *p))).await {
                     Ok(Ok(s)) => Some(Raw::Tcp(s)),
+                    Err(_) => {
+                        note_expired();
+                        None
+                    }
                     _ => None,
                 }
             }
@@ -213,7 +231,13 @@ impl Net {
             }
             let mut buf = [0u8; 4096];
             match tokio::time::timeout_at(end, c.io.read(&mut buf)).await {
-                Err(_) => return pred(c),
+                Err(_) => {
+                    let ok = pred(c);
+                    if !ok && deadline > NEG_DEADLINE {
+                        note_expired();
+                    }
+                    return ok;
+                }
                 Ok(Ok(0)) | Ok(Err(_)) => c.eof = true,
                 Ok(Ok(n)) => c.inbuf.extend_from_slice(&buf[..n]),
             }
@@ -368,7 +392,7 @@ impl Net {
                     if c.io.write_all(&out).await.is_err() {
                         return "connected-write-failed".to_string();
                     }
-                    let ok = Net::read_until(&mut c, POS_DEADLINE, |c| c.inbuf.len() > 64 + 2 && c.inbuf.len() >= 64 + 2 + c.inbuf[65] as usize).await;
+                    let ok = Net::read_until(&mut c, pos_deadline(), |c| c.inbuf.len() > 64 + 2 && c.inbuf.len() >= 64 + 2 + c.inbuf[65] as usize).await;
                     if ok {
                         "handshake-ok".to_string()
                     } else if c.eof {
@@ -389,7 +413,7 @@ impl Net {
                     None => return "bad-op no-ep".into(),
                 };
                 self.rt.block_on(async {
-                    let end = tokio::time::Instant::now() + POS_DEADLINE;
+                    let end = tokio::time::Instant::now() + pos_deadline();
                     loop {
                         if Net::raw_connect(&ep).await.is_none() {
                             let gone_path = match &ep {
@@ -420,6 +444,30 @@ impl Net {
                     }
                     None => "refused".into(),
                 }
+            }
+            // rawabort <ep> <n>: n connections in a row, each aborted (RST: SO_LINGER 0) right after connect, with
+            // nothing sent — some of the resets arrive before the library's accept loop has taken the connection
+            "rawabort" => {
+                let ep = match self.ep_of(w[1]) {
+                    Some(e) => e,
+                    None => return "bad-op no-ep".into(),
+                };
+                let n = num(2).unwrap_or(1);
+                self.rt.block_on(async {
+                    for _ in 0..n {
+                        if let Endpoint::Tcp(h, p) = &ep {
+                            if let Ok(Ok(st)) = tokio::time::timeout(pos_deadline(), TcpStream::connect((h.to_string().as_str(), *p))).await {
+                                let _ = st.set_linger(Some(Duration::from_secs(0)));
+                                drop(st);
+                            }
+                        } else if let Endpoint::Ipc(Some(path)) = &ep {
+                            if let Ok(st) = UnixStream::connect(path).await {
+                                drop(st);
+                            }
+                        }
+                    }
+                });
+                "ok".into()
             }
             "rawsend" => {
                 let c = num(1).unwrap();
@@ -462,7 +510,7 @@ impl Net {
                 self.rt.block_on(async {
                     match what.as_str() {
                         "hs" => {
-                            let ok = Net::read_until(rc, POS_DEADLINE, |c| c.inbuf.len() > 66 && c.inbuf.len() >= 66 + c.inbuf[65] as usize).await;
+                            let ok = Net::read_until(rc, pos_deadline(), |c| c.inbuf.len() > 66 && c.inbuf.len() >= 66 + c.inbuf[65] as usize).await;
                             if ok {
                                 let n = 66 + rc.inbuf[65] as usize;
                                 rc.inbuf.drain(..n);
@@ -476,7 +524,7 @@ impl Net {
                         // the library's own greeting (sent as soon as its handshake task for this
                         // connection runs): the barrier "this connection HAS been accepted"
                         "greeting" => {
-                            let ok = Net::read_until(rc, POS_DEADLINE, |c| c.inbuf.len() >= 64).await;
+                            let ok = Net::read_until(rc, pos_deadline(), |c| c.inbuf.len() >= 64).await;
                             if ok {
                                 "greeting-ok".to_string()
                             } else if rc.eof {
@@ -486,7 +534,7 @@ impl Net {
                             }
                         }
                         "eof" => {
-                            let _ = Net::read_until(rc, POS_DEADLINE, |c| c.eof).await;
+                            let _ = Net::read_until(rc, pos_deadline(), |c| c.eof).await;
                             if rc.eof {
                                 "eof".to_string()
                             } else {
@@ -503,7 +551,7 @@ impl Net {
                             }
                         }
                         "msg" => {
-                            let end = tokio::time::Instant::now() + POS_DEADLINE;
+                            let end = tokio::time::Instant::now() + pos_deadline();
                             loop {
                                 if let Some(m) = take_msg(&mut rc.inbuf) {
                                     return format!("M[{}]", show_msg(&m));
@@ -541,6 +589,49 @@ impl Net {
                     None => "bad-op no-raw".into(),
                 }
             }
+            // recvslow <s> <ms>: `recv` is polled ONCE with a waker whose wake() takes <ms> milliseconds (a slow
+            // executor hook), then the future is dropped. Whoever wakes that waker later — a handshake task
+            // registering a peer, the I/O driver announcing data — does so while holding the queue's lock: for
+            // <ms> milliseconds another thread owns that lock
+            "recvslow" => {
+                use std::future::Future;
+                struct Slow(u64);
+                impl futures::task::ArcWake for Slow {
+                    fn wake_by_ref(a: &std::sync::Arc<Self>) {
+                        std::thread::sleep(Duration::from_millis(a.0));
+                    }
+                }
+                let s = num(1).unwrap();
+                let ms = num(2).unwrap_or(500) as u64;
+                let _g = self.rt.enter();
+                let sock = match self.socks.get_mut(&s) {
+                    Some(x) => x,
+                    None => return "bad-op no-sock".into(),
+                };
+                let wk = futures::task::waker(std::sync::Arc::new(Slow(ms)));
+                let mut cx = std::task::Context::from_waker(&wk);
+                let mut fut = match sock {
+                    Sock::Sub(x) => x.recv(),
+                    Sock::Rep(x) => x.recv(),
+                    Sock::Dealer(x) => x.recv(),
+                    Sock::Router(x) => x.recv(),
+                    Sock::Pull(x) => x.recv(),
+                    Sock::XPub(x) => x.recv(),
+                    _ => return "bad-op no-recv".into(),
+                };
+                let r = match fut.as_mut().poll(&mut cx) {
+                    std::task::Poll::Pending => "pending".to_string(),
+                    std::task::Poll::Ready(Ok(_)) => "ready ok".to_string(),
+                    std::task::Poll::Ready(Err(e)) => format!("ready err {}", err_class(&format!("{:?}", e))),
+                };
+                drop(fut);
+                r
+            }
+            // pause <ms>
+            "pause" => {
+                std::thread::sleep(Duration::from_millis(num(1).unwrap_or(50) as u64));
+                "ok".into()
+            }
             "recv" => {
                 let s = num(1).unwrap();
                 let mut sock = match self.socks.remove(&s) {
@@ -560,8 +651,11 @@ impl Net {
                             _ => Err(ZmqError::Other("no recv")),
                         }
                     };
-                    match tokio::time::timeout(POS_DEADLINE, f).await {
-                        Err(_) => "none".to_string(),
+                    match tokio::time::timeout(pos_deadline(), f).await {
+                        Err(_) => {
+                            note_expired();
+                            "none".to_string()
+                        }
                         Ok(Ok(m)) => {
                             let fr: Vec<Vec<u8>> = m.iter().map(|b| b.to_vec()).collect();
                             // drop a 16-byte routing identity in front (ROUTER): random
@@ -597,8 +691,11 @@ impl Net {
                             _ => Err(ZmqError::Other("no send")),
                         }
                     };
-                    match tokio::time::timeout(POS_DEADLINE, f).await {
-                        Err(_) => "none".to_string(),
+                    match tokio::time::timeout(pos_deadline(), f).await {
+                        Err(_) => {
+                            note_expired();
+                            "none".to_string()
+                        }
                         Ok(Ok(())) => "ok".to_string(),
                         Ok(Err(e)) => format!("err {}", err_class(&format!("{:?}", e))),
                     }
@@ -665,7 +762,7 @@ impl Net {
                 };
                 let mut got: Vec<String> = vec![];
                 self.rt.block_on(async {
-                    let end = tokio::time::Instant::now() + if want > 0 { POS_DEADLINE } else { NEG_DEADLINE };
+                    let end = tokio::time::Instant::now() + if want > 0 { pos_deadline() } else { NEG_DEADLINE };
                     loop {
                         match tokio::time::timeout_at(end, rx.next()).await {
                             Ok(Some(ev)) => {
